@@ -29,6 +29,7 @@ import (
 	"time"
 
 	"github.com/cloudflare/pint/internal/checks"
+	"github.com/cloudflare/pint/internal/config"
 	"github.com/cloudflare/pint/internal/discovery"
 	"github.com/cloudflare/pint/internal/parser"
 )
@@ -323,7 +324,7 @@ func c18Templates(r *rand.Rand, rep *runReport, cw *caseWriter, cwd string, n in
 				}
 				*id++
 				term := fmt.Sprintf("{| c_id := %s; c_raw := %s; c_pattern := %s; c_rule := %s; c_ctx := {| cx_alert := %s; cx_record := %s; cx_expr := %s; cx_for := %s; cx_labels := %s; cx_annotations := %s |}; "+
-					"c_parse := [%s]; c_exec := [%s]; c_compile := %s; c_obs_new_ok := %s; c_obs_expand := %s; c_obs_must := %s |}",
+					"c_parse := [%s]; c_exec := [%s]; c_compile := %s; c_obs_new_ok := %s; c_obs_expand := %s; c_obs_must := %s; c_block := None |}",
 					coqN(*id), coqBool(raw), coqStr(pat), c18RuleTerm(&ru), coqStr(ctx.Alert), coqStr(ctx.Record), coqStr(ctx.Expr), coqStr(ctx.For), c18CoqPairs(ctx.Labels), c18CoqPairs(ctx.Annotations),
 					coqPair(coqStr(text), coqBool(parses)),
 					coqPair(coqStr(text), coqPair(c18OptStr(okE, outE), c18OptStr(okR, outR))),
@@ -341,6 +342,163 @@ func c18Templates(r *rand.Rand, rep *runReport, cw *caseWriter, cwd string, n in
 				}
 				if len(rep.Cases) < 300 {
 					rep.Cases[fmt.Sprint(*id)] = map[string]any{"pattern": pat, "raw": raw, "rule": ru.Name(), "new_ok": nerr == nil, "expand": obsExpand, "must": obsMust}
+				}
+			}
+		}
+	}
+}
+
+
+// ---------------------------------------------------------------------------------------------
+// (1b) block-level protocol: Rule.validate (load) / parseRule (construction with dropped errors) / String() and Check()
+// of the built checks, for annotation / label / reject / name / aggregate blocks over valid AND invalid patterns,
+// versus Model/TemplatedRegexpBlocks.v.
+
+var c18BlockKeys = []string{"summary", "{{ $alert }}.*", "team|severity", "(", "{{ nope", "[a{{ $alert }}]", "{{ $labels.team }}", "", ".*", "{{ .Foo }}", "x{2,1}", "{{ $record }}"}
+var c18BlockTokens = []string{"", "", "\\w+", "[a-z]+", "(", "{{ $alert }}", "{{ nope", "[{{ $for }}]"}
+var c18BlockValues = []string{"", "", "foo.*", "{{ $alert }}.*", "[a{{ $alert }}]", "(", "{{ .Foo }}", "{{ $labels.team }}-.+", "a|b"}
+
+func c18Try(f func()) (msg string) {
+	defer func() {
+		if r := recover(); r != nil {
+			msg = fmt.Sprint(r)
+			if msg == "" {
+				msg = "panic"
+			}
+		}
+	}()
+	f()
+	return ""
+}
+
+func c18Blocks(r *rand.Rand, rep *runReport, cw *caseWriter, cwd string, n int, id *int) {
+	entries, err := scEntries(filepath.Join(cwd, "tmpl"), "rules")
+	if err != nil {
+		rep.Notes = append(rep.Notes, "block rules: finder error "+err.Error())
+		return
+	}
+	var ents []discovery.Entry
+	for _, e := range entries {
+		if e.PathError == nil && e.Rule.Error.Err == nil {
+			ents = append(ents, e)
+		}
+	}
+	if len(ents) == 0 {
+		return
+	}
+	kinds := []string{"annotation", "label", "reject", "name", "aggregate"}
+	type trip struct{ key, token, value string }
+	var trips []trip
+	// every key once with token/value unset, every token and every value once with a good key, then random mixes
+	for _, k := range c18BlockKeys {
+		trips = append(trips, trip{k, "", ""})
+	}
+	for _, t := range c18BlockTokens {
+		trips = append(trips, trip{"summary", t, ""})
+	}
+	for _, v := range c18BlockValues {
+		trips = append(trips, trip{"{{ $labels.team }}", "", v})
+	}
+	for i := 0; i < 6+n/4; i++ {
+		trips = append(trips, trip{pick(r, c18BlockKeys), pick(r, c18BlockTokens), pick(r, c18BlockValues)})
+	}
+	ctx := scCtx("lint")
+	for ki, kind := range kinds {
+		for ti, tp := range trips {
+			if ki >= 2 && (tp.token != "" || tp.value != "") {
+				continue // single-regexp blocks: the key pool only
+			}
+			var rule config.Rule
+			switch kind {
+			case "annotation":
+				rule.Annotation = []config.AnnotationSettings{{Key: tp.key, Token: tp.token, Value: tp.value, Required: true}}
+			case "label":
+				rule.Label = []config.AnnotationSettings{{Key: tp.key, Token: tp.token, Value: tp.value, Required: true}}
+			case "reject":
+				rule.Reject = []config.RejectSettings{{Regex: tp.key, LabelKeys: true, LabelValues: true, AnnotationKeys: true, AnnotationValues: true}}
+			case "name":
+				rule.RuleName = []config.RuleNameSettings{{Regex: tp.key}}
+			case "aggregate":
+				rule.Aggregate = []config.AggregateSettings{{Name: tp.key, Keep: []string{"job"}}}
+			}
+			valid := config.C18RuleValidate(rule) == nil
+			var built []checks.RuleChecker
+			if msg := c18Try(func() { built = config.C18ParseRuleChecks(rule) }); msg != "" {
+				rep.fail(fmt.Sprintf("block-%s-%d", kind, ti), "parseRule crashed while building the checks of a rule block: "+msg, map[string]any{"kind": kind, "key": tp.key, "token": tp.token, "value": tp.value, "validate_ok": valid})
+				continue
+			}
+			for _, ei := range []int{0, (ti*7 + ki) % len(ents)} {
+				ent := ents[ei]
+				str, strOK, checkOK := "", true, true
+				var crash string
+				for ci, chk := range built {
+					if msg := c18Try(func() {
+						s := chk.String()
+						if ci == 0 {
+							str = s
+						}
+					}); msg != "" {
+						strOK = false
+						crash = "String(): " + msg
+					}
+					if msg := c18Try(func() { _ = chk.Check(ctx, ent, ents) }); msg != "" {
+						checkOK = false
+						crash = "Check(): " + msg
+					}
+				}
+				if valid && (!strOK || !checkOK) {
+					rep.fail(fmt.Sprintf("block-%s-%d-%d", kind, ti, ei), fmt.Sprintf("a %s block accepted by Rule.validate builds a check that crashes on rule %q: %s", kind, ent.Rule.Name(), crash),
+						map[string]any{"kind": kind, "key": tp.key, "token": tp.token, "value": tp.value, "rule_name": ent.Rule.Name(), "rule_lines": ent.Rule.Lines.String(),
+							"hint": fmt.Sprintf("config: rule { %s %q { token = %q value = %q } }", kind, tp.key, tp.token, tp.value)})
+					continue
+				}
+				// oracle tables for the three patterns
+				mc := c18ModelCtx(&ent.Rule)
+				parse, exec := []string{}, []string{}
+				compile := map[string]bool{}
+				seen := map[string]bool{}
+				for _, text := range []string{c18Aliases + "^" + tp.key + "$", c18Aliases + tp.token, c18Aliases + "^" + tp.value + "$"} {
+					if seen[text] {
+						continue
+					}
+					seen[text] = true
+					outE, parses, okE := c18Exec(text, c18Ctx{})
+					outR, _, okR := c18Exec(text, mc)
+					parse = append(parse, coqPair(coqStr(text), coqBool(parses)))
+					exec = append(exec, coqPair(coqStr(text), coqPair(c18OptStr(okE, outE), c18OptStr(okR, outR))))
+					for _, s := range []string{outE, outR} {
+						_, err := regexp.Compile(s)
+						compile[s] = err == nil
+					}
+				}
+				_, err := regexp.Compile(`[^\s\S]`)
+				compile[`[^\s\S]`] = err == nil
+				var ct []string
+				for _, s := range sortedKeys(compile) {
+					ct = append(ct, coqPair(coqStr(s), coqBool(compile[s])))
+				}
+				*id++
+				blk := fmt.Sprintf("(Some {| b_kind := %s; b_key := %s; b_token := %s; b_value := %s; b_obs_valid := %s; b_obs_nchecks := %s; b_obs_string := %s; b_obs_check_ok := %s |})",
+					coqN(ki), coqStr(tp.key), coqStr(tp.token), coqStr(tp.value), coqBool(valid), coqN(len(built)), c18OptStr(strOK, str), coqBool(checkOK))
+				term := fmt.Sprintf("{| c_id := %s; c_raw := false; c_pattern := \"\"; c_rule := %s; c_ctx := {| cx_alert := %s; cx_record := %s; cx_expr := %s; cx_for := %s; cx_labels := %s; cx_annotations := %s |}; "+
+					"c_parse := %s; c_exec := %s; c_compile := %s; c_obs_new_ok := false; c_obs_expand := None; c_obs_must := \"\"; c_block := %s |}",
+					coqN(*id), c18RuleTerm(&ent.Rule), coqStr(mc.Alert), coqStr(mc.Record), coqStr(mc.Expr), coqStr(mc.For), c18CoqPairs(mc.Labels), c18CoqPairs(mc.Annotations),
+					coqList(parse), coqList(exec), coqList(ct), blk)
+				cw.add(term)
+				rep.count(fmt.Sprintf("block|%s|%s|%s|%s|%s", kind, tp.key, tp.token, tp.value, ent.Rule.Name()), valid && strings.Contains(tp.key+tp.token+tp.value, "{{"))
+				rep.hist("case=block:" + kind)
+				switch {
+				case !valid && !strOK:
+					rep.hist("block:rejected-at-load,unvalidated-check-would-crash-in-String")
+				case !valid && !checkOK:
+					rep.hist("block:rejected-at-load,unvalidated-check-would-crash-in-Check")
+				case !valid:
+					rep.hist("block:rejected-at-load,unvalidated-check-would-survive")
+				default:
+					rep.hist("block:accepted")
+				}
+				if len(rep.Cases) < 400 {
+					rep.Cases[fmt.Sprint(*id)] = map[string]any{"block": kind, "key": tp.key, "token": tp.token, "value": tp.value, "rule": ent.Rule.Name(), "validate_ok": valid, "string": str, "string_ok": strOK, "check_ok": checkOK}
 				}
 			}
 		}
@@ -1026,6 +1184,7 @@ func runC18(args []string) int {
 	// the whole budget goes to configurations run through the binary
 	if argStr(args, "--templates", "yes") == "yes" {
 		c18Templates(r, rep, cw, cwd, n, &id)
+		c18Blocks(r, rep, cw, cwd, n, &id)
 	}
 	cw.flush()
 	rep.CaseFiles = cw.files
